@@ -787,6 +787,7 @@ def cli_cases(g, group, thorough):
             pre += f"mov cx, {r.choice([0,1,3,7,40,255,256,300,1000,4097])}\nmov dl, {r.choice([0,1,4,65,200,255])}\nmov al, {r.choice([65,66,10,200,0])}\n" + ("mov dx, bx\n" if ah == 0x0A and which == "0x21" else "") + f"mov ah, {ah}\nint {which}\n"
             post = "print reg\nmov ax, 0\nmov ds, ax\nprint mem %d : 12\nprint flags\n" % (((seg * 16 + off) % 1048576) if ((seg * 16 + off) % 1048576) + 12 < 1048576 else 0)
             stdin = r.choice(["", "\n", "a\n", "ab", "abc\n", "hello world\n", "0123456789\n", "x" * 300 + "\n", "line1\nline2\n", "\r\n", "tab\there\n",
+                              "ab  \n", "x\t\n", "  \n", " lead\n", "cr\r\n", "two  words \t\r\n", "end\x0b\n", "nbsp\u00a0\n",
                               "".join(chr(65 + k % 26) for k in range(r.randrange(8, 40))) + "\n"])
             if top:
                 stdin = "".join(chr(65 + k % 26) for k in range(r.randrange(12, 60))) + "\n"
@@ -795,6 +796,10 @@ def cli_cases(g, group, thorough):
         for which in ("0x21", "0x10"):
             for ah in range(256):
                 out.append(("-", f"start:\nmov bx, 0x300\nmov byte [bx], 4\nmov dx, bx\nmov bp, bx\nmov cx, 2\nmov al, 65\nmov ah, {ah}\nint {which}\nprint reg\nmov bx, 7\nprint reg\n", "ab\ncd\n"))
+        # input lines with white space at their ends (only the line terminator is not part of the line)
+        for line in ["ab  \n", "x\t\n", "   \n", " a \n", "ab \r\n", "ab\r\r\n", "ab\n\n", "q \x0c\n"]:
+            for cap in (1, 3, 5, 255):
+                out.append(("-", f"start:\nmov bx, 0x300\nmov byte [bx], {cap}\nmov dx, bx\nmov ah, 0x0A\nint 0x21\nprint reg\nprint mem 0x300 : 12\nmov ah, 1\nint 0x21\nprint reg\n", line + "next\n"))
         # input lines that do not start with (or contain only) ASCII
         for line in ["\u00e9t\u00e9\n", "\u0100x\n", "\u20ac\n", "a\u00e9\n", "\U0001F600z\n", "\u00e9", "\x7f\n", "\u00ff\u00fe\n"]:
             for ah, cap in ((1, 0), (0x0A, 1), (0x0A, 2), (0x0A, 3), (0x0A, 5), (0x0A, 255)):
